@@ -3,11 +3,15 @@
 Require Extraction.
 Require Import ExtrOcamlBasic.
 From Coq Require Import NArith ZArith List.
-From VT Require Import Gen.Constants Model.Cache.
+From VT Require Import Gen.Constants Base.Outcome Model.Cache Model.BBox.
 Extraction Blacklist String List Nat Int Char.
 Set Extraction KeepSingleton.
 Extraction "../ocaml/model.ml"
   N.add N.mul N.div_eucl N.of_nat N.to_nat N.eqb N.leb N.ltb
   Z.add Z.mul Z.div_eucl Z.of_N Z.to_N Z.opp
-  Constants.cache_median_variant
-  Cache.run Cache.empty.
+  Constants.cache_median_variant Constants.bbox_add_border_variant Constants.bbox_index_variant
+  Cache.run Cache.empty
+  BBox.new BBox.new_full BBox.new_empty BBox.is_empty BBox.width BBox.height BBox.count_tiles BBox.contains2 BBox.contains3
+  BBox.set_empty BBox.include_coord BBox.add_border BBox.include_bbox BBox.intersect_bbox BBox.overlaps_bbox
+  BBox.shift_by BBox.subtract BBox.scale_down BBox.iter_coords BBox.iter_bbox_grid BBox.get_tile_index
+  BBox.get_coord_by_index BBox.coord_flip_y BBox.coord_swap_xy BBox.flip_y BBox.swap_xy BBox.level_max.
